@@ -1339,7 +1339,40 @@ impl C07 {
                     format!("valid item {:?} rejected by to_payload", item),
                 )),
             }
-        })
+        })?;
+        // An origin whose max length equals its prefix length can be spelled
+        // without an explicit max length. It is the same item: it must go out
+        // as the same PDU and what comes back must be `==` to it, both ways.
+        let implicit = match p {
+            WirePdu::Ipv4 { plen, maxlen, addr, asn, .. } if plen == maxlen => Prefix::new_v4_relaxed(Ipv4Addr::from(*addr), *plen)
+                .ok()
+                .and_then(|pfx| MaxLenPrefix::new(pfx, None).ok())
+                .map(|m| payload::Payload::origin(m, Asn::from_u32(*asn))),
+            WirePdu::Ipv6 { plen, maxlen, addr, asn, .. } if plen == maxlen => Prefix::new_v6_relaxed(Ipv6Addr::from(*addr), *plen)
+                .ok()
+                .and_then(|pfx| MaxLenPrefix::new(pfx, None).ok())
+                .map(|m| payload::Payload::origin(m, Asn::from_u32(*asn))),
+            _ => None,
+        };
+        if let Some(alt) = implicit {
+            ctx.bump("probe_origin_spelled_without_max_len");
+            guarded("to_payload", || {
+                let lib2 = pdu::Payload::new(v, action.into_flags(), alt.as_ref());
+                let same_pdu = lib2.as_partial_slice() == lib.as_partial_slice();
+                match lib2.to_payload() {
+                    Ok((a, it)) if a == action && it == alt && alt == it && it == item && same_pdu => Ok(()),
+                    other => Err(Violation::new(
+                        "item-mismatch",
+                        format!("type-{}-implicit-max-len", p.type_code()),
+                        format!(
+                            "origin {:?} spelled without max length came back as {:?} (same PDU octets: {}); the same item with explicit max length is {:?}",
+                            alt, other.map(|(a, it)| format!("{:?}/{:?}", a, it)).map_err(|_| "rejected"), same_pdu, item
+                        ),
+                    )),
+                }
+            })?;
+        }
+        Ok(())
     }
 }
 
